@@ -115,6 +115,12 @@ inductive Ramp where
   | time (ps : List Int)
   /-- the axis itself, or a view of all of it (`t += t`, `t -= t[:]`): shares the sample buffer -/
   | self
+  /-- an operand of TYPE `UniformTime`: its samples (ps) and the `sampling_interval` attribute it
+  carries.  The attribute need not describe the samples: the result of fancy / boolean indexing or
+  of a write through an ndarray view keeps the type and the inherited attributes.  The check must
+  difference the SAMPLES; `claimed` is ignored by the model of the code (`convRamp`) and only read
+  by the variant `rampStepTrusting` -/
+  | typed (claimed : Int) (ps : List Int)
   deriving Repr, DecidableEq
 
 def Ramp.aliased : Ramp → Bool
@@ -141,6 +147,7 @@ def convRamp (u : TimeUnit) (self : List Int) : Ramp → List Int
   | .ints xs => xs.map (· * factorOf u)
   | .time ps => ps
   | .self => self
+  | .typed _ ps => ps
 
 /-- `n` instants from `t0` every `dt` -/
 def affine (t0 dt : Int) (n : Nat) : List Int := (List.range n).map fun (i : Nat) => t0 + (i : Int) * dt
@@ -156,6 +163,32 @@ def rampStep (vals : List Int) : Except Err Int :=
   match diff vals with
   | [] => .error .indexError
   | d :: ds => if ds.all (· == d) then .ok d else .error .valueError
+
+/-- `_convert_and_check_uniformity` for a 1-d operand of any type: the values in ps and the change
+they make to the sampling interval — empty: refused; one element: a shift (0); else the exact
+all-differences-equal check on the SAMPLES (`rampStep`) -/
+def checkOperand (u : TimeUnit) (self : List Int) (r : Ramp) : Except Err (List Int × Int) :=
+  match convRamp u self r with
+  | [] => .error .valueError
+  | [v] => .ok ([v], 0)
+  | x :: y :: rest => (rampStep (x :: y :: rest)).map fun d => (x :: y :: rest, d)
+
+/-- VARIANT, not the code's check (counterexample theorems only): an operand of type `UniformTime`
+is trusted — the interval change is read from its attribute instead of its samples -/
+def rampStepTrusting (r : Ramp) (vals : List Int) : Except Err Int :=
+  match r with
+  | .typed c _ => if vals.length < 2 then .error .indexError else .ok c
+  | _ => rampStep vals
+
+/-- VARIANT, not the code's check (counterexample theorems only): `np.isclose(dv, dv[0])`, i.e.
+`|x − d| ≤ atol + rtol·|d|` with numpy's defaults rtol = 10⁻⁵, atol = 10⁻⁸, in exact arithmetic
+(both sides × 10⁸) -/
+def rampStepTol (vals : List Int) : Except Err Int :=
+  match diff vals with
+  | [] => .error .indexError
+  | d :: ds =>
+    if ds.all (fun x => decide ((x - d).natAbs * 100000000 ≤ 1 + 1000 * d.natAbs)) then .ok d
+    else .error .valueError
 
 /-- `Frequency(1.0 / (float(Δ) / tuc[unit]), time_unit=unit)` in exact binary64 -/
 def rateOf (u : TimeUnit) (dt : Int) : Rat :=
@@ -397,6 +430,14 @@ def parseOp? (s : String) : Option Op :=
   | ["ar", "t", xs] => (parseIntList? xs).map fun xs => .addR (.time xs)
   | ["sr", "i", xs] => (parseIntList? xs).map fun xs => .subR (.ints xs)
   | ["sr", "t", xs] => (parseIntList? xs).map fun xs => .subR (.time xs)
+  | ["ar", "u", c, xs] => do
+    let c ← c.toInt?
+    let xs ← parseIntList? xs
+    pure (.addR (.typed c xs))
+  | ["sr", "u", c, xs] => do
+    let c ← c.toInt?
+    let xs ← parseIntList? xs
+    pure (.subR (.typed c xs))
   | ["ar", "self"] => some (.addR .self)
   | ["sr", "self"] => some (.subR .self)
   | ["mu", k] => k.toInt?.map .mul
@@ -431,8 +472,29 @@ def trace (cfg : Cfg) (s : State) (a : Abs) (ops : List Op) : List String :=
     let a' := absStep a op
     showState cfg s' e a' :: trace cfg s' a' rest
 
+def showCheck (r : Except Err Int) : String :=
+  match r with
+  | .ok d => s!"ok:{d}"
+  | .error e => "err:" ++ e.name
+
+/-- `check <unit> <operand token>`: what `_convert_and_check_uniformity` answers for a 1-d operand
+(`ok <Δ change> <values in ps>` | `err <class>`), then — after ` ## ` — the two variant checks -/
+def handleCheck (u : TimeUnit) (tok : String) : String :=
+  match parseOp? ("ar:" ++ tok) with
+  | some (.addR r) =>
+    let vals := convRamp u [] r
+    let head := match checkOperand u [] r with
+      | .ok (vs, d) => s!"ok {d} {showIntList vs}"
+      | .error e => "err " ++ e.name
+    s!"{head} ## tol={showCheck (rampStepTol vals)} trusting={showCheck (rampStepTrusting r vals)}"
+  | _ => "bad-op"
+
 def handle (args : List String) : String :=
   match args with
+  | ["check", u, tok] =>
+    match TimeUnit.ofString? u with
+    | some u => handleCheck u tok
+    | none => "bad-op"
   | [mode, u, t0, dt, n, ops] =>
     match TimeUnit.ofString? u, t0.toInt?, dt.toInt?, n.toNat?,
           (if ops = "-" then some [] else (ops.splitOn ";").mapM parseOp?) with
